@@ -30,7 +30,7 @@ type vLog struct {
 // also dequeue the first client's key. The environment (main) advances the clock to each due time once everybody is
 // parked. At the end every live item has run exactly once, not early; nothing is stranded; Close ends the loop.
 //
-//verif:harness prop=C06 name=processor_two_clients threads=4 preempt=2 t_preempt=3 unwind=10 witness=lenient
+//verif:harness prop=C06 name=processor_two_clients threads=4 sched=delay preempt=3 t_preempt=4 unwind=10 witness=lenient
 func VerifProcessorTwoClients() {
 	start := zzverif.TimeFromNanos(1_000_000_000)
 	clk := zzverifstubs.NewClock(start)
